@@ -53,7 +53,8 @@ FUNCTIONS = ["ttconv.scc.reader:to_model", "ttconv.scc.line:SccLine.from_str", "
              "ttconv.scc.caption_line:SccCaptionLine.add_text", "ttconv.scc.caption_line:SccCaptionLine.set_cursor",
              "ttconv.scc.caption_text:SccCaptionText.append", "ttconv.scc.caption_text:SccCaptionText.backspace",
              "ttconv.scc.word:SccWord.from_str", "ttconv.time_code:SmpteTimeCode.parse", "ttconv.time_code:SmpteTimeCode.add_frames",
-             "ttconv.time_code:SmpteTimeCode.to_temporal_offset"]
+             "ttconv.time_code:SmpteTimeCode.to_temporal_offset", "ttconv.scc.utils:convert_cells_to_percentages",
+             "ttconv.scc.utils:get_position_from_offsets", "ttconv.scc.utils:get_extent_from_dimensions"]
 
 
 def check(tier, seed, only=None, skip_a=False, skip_b=False):
@@ -70,6 +71,7 @@ def check(tier, seed, only=None, skip_a=False, skip_b=False):
     from contracts.c12 import harnesses_for
     from specs import smpte
     hs = [c08_proofs.stream_time_harness(shape, kind) for shape in c08_proofs.SHAPES for kind in ("ndf", "df")]
+    hs += [c08_proofs.cells_to_percentages_harness(kind) for kind in ("origin", "extent")]
     for rn in ("30", "30000/1001"):       # discharge the callee contract SmpteTimeCode.add_frames for the real body
       hs += [h for h in harnesses_for(rn, smpte.RATES[rn]) if h.name.startswith("add_frames@")]
     for h in hs:
@@ -94,7 +96,8 @@ def check(tier, seed, only=None, skip_a=False, skip_b=False):
         cov[k] = data.get(k)
   cov["explanation"] = ("Tier A (proved, pyvc + z3/cvc5, assumptions A-RE and the add_frames contract): on twelve concrete word streams x {`:`, `;`} the "
                         "real reader runs with symbolic time code labels on every line; begin/end of every paragraph are exact frame multiples, not "
-                        "before the line's label, within the window of the triggering word, for ALL valid labels.  Tier B: generated SCC streams (pop-on, roll-up, paint-on and mixed grammars x text_align "
+                        "before the line's label, within the window of the triggering word, for ALL valid labels; cell coordinates -> percentages (scc.utils) is the "
+                        "nearest integer per component with x/y kept apart and rows distinct and ordered, for all integer cells on the 32 x 15 grid.  Tier B: generated SCC streams (pop-on, roll-up, paint-on and mixed grammars x text_align "
                         "configuration) are read by the real to_model and compared frame by frame (characters, rows, style runs, change "
                         "times) with an independent CEA-608 decoder (bounded, not counted as proved).")
   cov["trusted_base"] = ASSUMPTIONS
